@@ -364,8 +364,13 @@ func main() {
 		for _, i := range idx {
 			d := dels[i]
 			sel := all
+			// thorough: a removed key is explored at every position x every shape; a re-ordering or a
+			// swap at the positions near the change (every shape); quick: near positions, one shape
+			near := *tier != "thorough" || strings.HasPrefix(d.what, "reordered:") || strings.HasPrefix(d.what, "swapped:")
 			if *tier != "thorough" {
 				sel = func(pi, shi int) bool { return shi == (pi+i)%len(shapes) }
+			}
+			if near {
 				parent := d.parent
 				depth := 3
 				if len(parent) < 2 {
